@@ -101,6 +101,9 @@ func init() {
 		}
 	}
 	rayDirs = append(rayDirs, xyz(0.3, 1, 0.2), xyz(-0.7, 0.1, 0.71), xyz(0.9, -0.1, 0.43), xyz(2, 1, 0.5), xyz(-1, -2, -1.5))
+	// zero components of negative sign (what Scale(-1) or a mirror produces): slab tests divide by them
+	nz := math.Copysign(0, -1)
+	rayDirs = append(rayDirs, xyz(-1, nz, nz), xyz(nz, 1, nz), xyz(nz, nz, -1), xyz(1, nz, 1), xyz(nz, -1, 1))
 	for _, x := range []float64{-0.5, 0, 1, 2, 3.25} {
 		for _, y := range []float64{-0.5, 1, 2, 2.75} {
 			for _, z := range []float64{-1, 0, 1, 2.5} {
@@ -629,6 +632,7 @@ func checkSegSet(r *ev.Run, set []int) {
 		}
 	}
 	dirs = append(dirs, model2d.XY(0.3, 1), model2d.XY(-0.7, 0.2), model2d.XY(2, 1))
+	dirs = append(dirs, model2d.XY(-1, math.Copysign(0, -1)), model2d.XY(math.Copysign(0, -1), 1))
 	for x := -1.0; x <= 3.5; x += 0.5 {
 		for y := -1.0; y <= 3; y += 0.5 {
 			o := model2d.XY(x, y)
